@@ -9,7 +9,7 @@
    Model only: no proofs here. *)
 From Coq Require Import ZArith List Bool.
 Import ListNotations.
-Require Import Grist.Lib.PyPrelude Grist.Lib.PyMonad Grist.Model.RowIds.
+Require Import Grist.Lib.PyPrelude Grist.Lib.PyMonad Grist.Lib.PyTmp Grist.Model.RowIds.
 Open Scope Z_scope.
 
 (* ---- the new-rows map of one table: TableDelta.temp_row_ids (a dict) -------------------------------- *)
@@ -248,7 +248,8 @@ Definition step (s : schema) (st : state) (a : action) : py_result (state * retv
       let tb := get_table d t in
       let ids' := translate (m t) ids in
       let d1 := set_table d t (filter (fun x => negb (py_mem Z.eqb (r_id x) ids')) tb) in
-      PyOk (mkstate (clean_doc s t ids' d1) m, RetNone)
+      (* the clean-up of references uses row_id_set = set(row_ids), computed AFTER the translation *)
+      PyOk (mkstate (clean_doc s t (py_set ids') d1) m, RetNone)
   end.
 
 (* a bundle starts with empty maps (a fresh ActionSummary); the first exception rejects the whole bundle *)
